@@ -42,6 +42,8 @@ type Case struct {
 	// Sliced: the last object of every phase (a duplicate entry included) lives in an ObjectSlice
 	// of its own instead of inline (ObjectSet owners); HideSlice: 1+index of the phase whose slice
 	// a lagging cache does not show to the first pass (0 = none)
+	// ClassLast: the last phase of an ObjectSet is delegated (has a class)
+	ClassLast bool `json:"classLast,omitempty"`
 	Sliced    bool `json:"sliced,omitempty"`
 	HideSlice int  `json:"hideSlice,omitempty"`
 }
@@ -189,6 +191,9 @@ func build(c Case) *built {
 			d.SetNamespace("")
 		}
 		phases[len(phases)-1].Objects = append(phases[len(phases)-1].Objects, world.O(d))
+	}
+	if c.ClassLast && (c.Owner == "ObjectSet" || c.Owner == "ClusterObjectSet") {
+		phases[len(phases)-1].Class = world.PhaseClass
 	}
 	if c.Sliced && c.Owner == "ObjectSet" {
 		for pi := range phases {
@@ -490,6 +495,14 @@ func enumerate(quick bool) []Case {
 				for hide := 0; hide <= 2; hide++ {
 					cases = append(cases, Case{Owner: owner, Phases: [][]string{{"V", "V"}, {"V"}}, Dup: d, Sliced: true, HideSlice: hide})
 				}
+			}
+		}
+		// duplicates between a local phase and a delegated one (nothing may be written, the
+		// ObjectSetPhase object included)
+		if owner == "ObjectSet" || owner == "ClusterObjectSet" {
+			for _, d := range []string{"cross-phase", "via-defaulting", "other-version"} {
+				cases = append(cases, Case{Owner: owner, Phases: [][]string{{"V"}, {"V"}}, Dup: d, ClassLast: true})
+				cases = append(cases, Case{Owner: owner, Phases: [][]string{{"V", "V"}, {"V"}}, Dup: d, ClassLast: true})
 			}
 		}
 		// duplicates
